@@ -56,13 +56,14 @@ func NewSubscriptionManager(
 		log:    log,
 		Closed: ch,
 
-		when:        IndexWhen{},
-		whenTime:    IndexWhenTime{},
-		whenArgs:    IndexWhenArgs{},
-		stateCtx:    IndexStateCtx{},
-		whenCtx:     map[context.Context][]*WhenBinding{},
-		whenTimeCtx: map[context.Context][]*WhenTimeBinding{},
-		whenArgsCtx: map[context.Context][]*WhenArgsBinding{},
+		when:         IndexWhen{},
+		whenTime:     IndexWhenTime{},
+		whenArgs:     IndexWhenArgs{},
+		stateCtx:     IndexStateCtx{},
+		whenCtx:      map[context.Context][]*WhenBinding{},
+		whenTimeCtx:  map[context.Context][]*WhenTimeBinding{},
+		whenArgsCtx:  map[context.Context][]*WhenArgsBinding{},
+		whenQueryCtx: map[context.Context][]*whenQueryBinding{},
 	}
 }
 
